@@ -33,6 +33,14 @@ def gen_cases(rng, n, max_depth):
                 kind = rng.choice(["sum", "sum", "prod"])
                 inner = ["b", kind, "j", E.op("add", E.op("mul", E.num(2), E.sym("j")), E.sym("i")), E.num(0), E.sym("i")]
                 lf["resources"].append({"name": "zs", "type": "other", "value": ["b", kind, "i", inner, E.num(1), top]})
+            if rng.random() < 0.2:
+                # a built-in of two arguments whose order matters, over two names of some routine's scope (or a name and a number)
+                nd = rng.choice([n for n, _ in H._nodes(r)])
+                sc = list(nd["input_params"]) or ["N"]
+                if not nd["input_params"]:
+                    nd["input_params"] = ["N"]
+                a, b = E.sym(rng.choice(sc)), (E.sym(rng.choice(sc)) if rng.random() < 0.5 else E.num(rng.randint(2, 5)))
+                nd["resources"].append({"name": "za", "type": "other", "value": E.fun("atan2", E.op("add", a, E.num(1)), b)})
             out.append({"routine": r})
     return out
 
